@@ -28,6 +28,7 @@ class Ctx(object):
         self.truthy_val = z3.Function("truthy_val", self.Val, z3.BoolSort())
         s = z3.Const("s!", self.Str)
         self.axiom("strlen.nonneg", z3.ForAll([s], self.strlen(s) >= 0, patterns=[self.strlen(s)]))
+        self.axiom("strlen.empty", z3.ForAll([s], z3.Implies(self.strlen(s) == 0, s == self.str_lit("")), patterns=[self.strlen(s)]))
         for nm in ("NULL", "None", "True", "False"):
             self.val_const(nm)
         self.axiom("truthy.True", self.truthy_val(self.val_const("True")))
